@@ -149,8 +149,13 @@ Definition signing_input (prot payload : bytes) : bytes :=
   b64url_encode prot ++ ch_dot :: b64url_encode payload.
 
 (* computeAuthData (jwe.go) *)
+(* zero-length authenticated data counts as absent (len(obj.aad) > 0) *)
 Definition aad_input (prot : bytes) (aad : option bytes) : bytes :=
-  b64url_encode prot ++ match aad with None => [] | Some a => ch_dot :: b64url_encode a end.
+  b64url_encode prot ++
+  match aad with
+  | None => []
+  | Some a => if is_nil a then [] else ch_dot :: b64url_encode a
+  end.
 
 Record jws_fields := { js_prot : bytes; js_payload : bytes; js_sig : bytes }.
 Record jwe_fields := { je_prot : bytes; je_key : bytes; je_iv : bytes; je_ct : bytes; je_tag : bytes }.
